@@ -10,7 +10,12 @@
  *   h_hsort_body  the REAL secp256k1_hsort / heap_down / heap_swap on count <= HS_MAX elements of stride 8 with
  *                 a total order: output sorted (adjacent pair at a ghost index) and a permutation of the
  *                 input (multiplicity of a ghost value preserved).  BOUNDED stand-in: count <= HS_MAX
- *                 (5 in the quick tier: 70 s; 6 in the thorough tier: cost grows ~8x per element). */
+ *                 (5 in the quick tier: 70 s; 6 in the thorough tier: cost grows ~8x per element).
+ *   h_hsort_struct  EVERY count (symbolic, loop contracts on both loops of the real secp256k1_hsort, hook
+ *                 hooks/C04_sort_combine_loops.diff), heap_down / heap_swap replaced by structural contracts: the
+ *                 heap is built over all count elements and count-1 maxima are extracted, the heap shrinking by
+ *                 one each time.  Together with h_hsort_body this is what "sorts for every length" is reduced to;
+ *                 the missing link (heap_down restores the heap property for every heap size) is NOT proved. */
 #include "assumed_C04.h"
 #include "spec.h"
 #ifdef U_SORT_CMP
@@ -19,6 +24,29 @@ const secp256k1_context *g_cmp_ctx; const secp256k1_pubkey *g_cmp_a, *g_cmp_b; i
 int secp256k1_ec_pubkey_cmp(const secp256k1_context *ctx, const secp256k1_pubkey *pubkey0, const secp256k1_pubkey *pubkey1)
 __CPROVER_assigns(g_cmp_ctx, g_cmp_a, g_cmp_b, g_cmp_n, g_cmp_ret)
 __CPROVER_ensures(g_cmp_n == __CPROVER_old(g_cmp_n) + 1 && g_cmp_ctx == ctx && g_cmp_a == pubkey0 && g_cmp_b == pubkey1 && g_cmp_ret == __CPROVER_return_value)
+;
+#endif
+#ifdef U_HSORT_STRUCT
+/* Structural contracts for the two helpers of secp256k1_hsort.  The PRECONDITION of call number k states which
+ * arguments that call must have (as a function of the ORIGINAL count held in a harness ghost), so "hsort builds
+ * the heap over all count elements and then extracts count-1 maxima, shrinking the heap by one each time"
+ * becomes a set of requires-obligations on the real loops, for every count.  What heap_down / heap_swap DO is
+ * checked on the real bodies in C04.hsort_body (bounded). */
+size_t verif_c04_hd_n, verif_c04_sw_n;                  /* calls so far (named by the loop invariants in hsort) */
+size_t g_hs_count, g_hs_size; const void *g_hs_ptr, *g_hs_data; int (*g_hs_cmp)(const void *, const void *, void *);   /* set by the harness only */
+static void secp256k1_heap_down(unsigned char *arr, size_t i, size_t heap_size, size_t stride, int (*cmp)(const void *, const void *, void *), void *cmp_data)
+__CPROVER_requires((const void *)arr == g_hs_ptr && stride == g_hs_size && cmp == g_hs_cmp && (const void *)cmp_data == g_hs_data)
+__CPROVER_requires(verif_c04_hd_n < g_hs_count / 2
+    ? (i == g_hs_count / 2 - 1 - verif_c04_hd_n && heap_size == g_hs_count)                           /* heap construction: i = count/2-1 .. 0 over the whole array */
+    : (i == 0 && heap_size == g_hs_count - 1 - (verif_c04_hd_n - g_hs_count / 2) && heap_size >= 1))   /* extraction k: repair the heap of the first count-1-k elements */
+__CPROVER_assigns(__CPROVER_object_whole(arr), verif_c04_hd_n)
+__CPROVER_ensures(verif_c04_hd_n == __CPROVER_old(verif_c04_hd_n) + 1)
+;
+static void secp256k1_heap_swap(unsigned char *arr, size_t i, size_t j, size_t stride)
+__CPROVER_requires((const void *)arr == g_hs_ptr && stride == g_hs_size && i == 0 && j == g_hs_count - 1 - verif_c04_sw_n && j >= 1 && j < g_hs_count)
+__CPROVER_requires(verif_c04_hd_n == g_hs_count / 2 + verif_c04_sw_n)                                   /* swaps only after the heap is built, alternating with repairs */
+__CPROVER_assigns(__CPROVER_object_whole(arr), verif_c04_sw_n)
+__CPROVER_ensures(verif_c04_sw_n == __CPROVER_old(verif_c04_sw_n) + 1)
 ;
 #endif
 #include "src/secp256k1.c"
@@ -97,3 +125,23 @@ void h_hsort_body(void) {
     if (n == 0) REACH("hsort_body empty");
 }
 #endif
+
+#ifdef U_HSORT_STRUCT
+static int cmp_any(const void *a, const void *b, void *data) { (void)a; (void)b; (void)data; return 0; }
+void h_hsort_struct(void) {
+    INPUT(size_t, n);
+    uint64_t *a; int user_data;
+    __CPROVER_assume(n <= 100000);
+    a = malloc(n ? n * sizeof(*a) : 1);
+    __CPROVER_assume(a != NULL);
+    verif_c04_hd_n = 0; verif_c04_sw_n = 0;
+    g_hs_count = n; g_hs_size = sizeof(*a); g_hs_ptr = a; g_hs_cmp = cmp_any; g_hs_data = &user_data;
+    secp256k1_hsort(a, n, sizeof(*a), cmp_any, &user_data);
+    __CPROVER_assert(verif_c04_hd_n == n / 2 + (n >= 1 ? n - 1 : 0), "C04 hsort_struct: count/2 heap-construction steps plus one repair per extraction, for every count");
+    __CPROVER_assert(verif_c04_sw_n == (n >= 1 ? n - 1 : 0), "C04 hsort_struct: exactly count-1 extractions: every element position is reached, for every count");
+    if (n > 41) REACH("hsort_struct more than 41 elements");
+    if (n == 0) REACH("hsort_struct empty");
+    if (n == 1) REACH("hsort_struct single element");
+}
+#endif
+
